@@ -430,11 +430,11 @@ def _slots(prog, path=()):
         k = op[0]
         if k == "bs":
             yield (path + (i,), 3, "unit")
-            if not isinstance(op[5], dict) and op[5] > 0:
-                yield (path + (i,), 5, "unit")
+            if not isinstance(op[5], dict):
+                yield (path + (i,), 5, "unit")       # also when the loss is currently 0
         elif k == "ps":
             yield (path + (i,), 2, "phase")
-            if not isinstance(op[3], dict) and op[3] > 0:
+            if not isinstance(op[3], dict):
                 yield (path + (i,), 3, "unit")
         elif k == "loss":
             yield (path + (i,), 2, "unit")
